@@ -11,10 +11,11 @@ Local Open Scope nat_scope.
 Lemma gen_name_inj a b : gen_name a = gen_name b -> a = b.
 Proof.
   unfold gen_name. intros H.
-  assert (Hl : S (a / 26) = S (b / 26)).
-  { apply (f_equal (@length byte)) in H. now rewrite !repeat_length in H. }
-  simpl in H. injection H as Hh _.
-  apply N.add_cancel_l in Hh. apply Nat2N.inj in Hh. injection Hl as Hl.
+  assert (Hl : a / 26 = b / 26).
+  { apply (f_equal (@length byte)) in H. rewrite !repeat_length in H. now injection H. }
+  assert (Hh : (97 + N.of_nat (a mod 26))%N = (97 + N.of_nat (b mod 26))%N).
+  { apply (f_equal (fun l => hd 0%N l)) in H. exact H. }
+  apply N.add_cancel_l in Hh. apply Nat2N.inj in Hh.
   rewrite (Nat.div_mod_eq a 26), (Nat.div_mod_eq b 26), Hl, Hh. reflexivity.
 Qed.
 
@@ -79,8 +80,8 @@ Lemma new_of_in mp n : In n (map snd mp) -> exists p, In p mp /\ snd p = n /\ ne
 Proof.
   unfold new_of. intros Hn. destruct (find (fun p => bytes_eqb (snd p) n) mp) as [p |] eqn:E.
   - apply find_some in E. destruct E as [Hp Hs]. apply bytes_eqb_eq in Hs. now exists p.
-  - exfalso. apply in_map_iff in Hn. destruct Hn as [p [Hs Hp]]. apply (find_none _ _ E) in Hp.
-    rewrite Hs, bytes_eqb_refl in Hp. discriminate.
+  - exfalso. apply in_map_iff in Hn. destruct Hn as [p [Hs Hp]].
+    pose proof (find_none _ _ E p Hp) as Hf. simpl in Hf. subst n. rewrite bytes_eqb_refl in Hf. discriminate.
 Qed.
 
 Lemma fst_inj_nodup {A B} (l : list (A * B)) p q : NoDup (map fst l) -> In p l -> In q l -> fst p = fst q -> p = q.
